@@ -653,6 +653,26 @@ def late_mutants(base, rng, limit):
         tr["when"] = "<% ctx().zz_late %>"
         out.append((m, {"class": "late_variable", "position": [s, i, "when"], "expr": tr["when"], "var": LATE,
                         "cpath": "tasks.%s.next[%d].when" % (s, i), "task": s}))
+        # a variable whose first assignment refers to itself (a counter that is never initialised): the entry's
+        # own expression is read before the entry assigns
+        for jinja in (False, True):
+            e = "{{ ctx().%s + 1 }}" % LATE if jinja else "<% ctx().zz_late + 1 %>"
+            m = copy.deepcopy(base)
+            tr = m["tasks"][s]["next"][i]
+            lst = list(tr["publish"]) if isinstance(tr.get("publish"), list) else (
+                args_util.parse_inline_params(tr["publish"]) if isinstance(tr.get("publish"), str) else [])
+            lst.append({LATE: e})
+            tr["publish"] = lst
+            out.append((m, {"class": "late_variable", "position": [s, i, "self"], "expr": e, "var": LATE,
+                            "cpath": "tasks.%s.next[%d].publish[%d]" % (s, i, len(lst) - 1), "task": s}))
+    # the same at the workflow level: vars / output entries defined from themselves
+    for sect in ("vars", "output"):
+        m = copy.deepcopy(base)
+        lst = list(m.get(sect) or [])
+        lst.append({LATE: "<% ctx().zz_late %>"})
+        m[sect] = lst
+        out.append((m, {"class": "late_variable", "position": [sect, "self"], "expr": "<% ctx().zz_late %>", "var": LATE,
+                        "cpath": "%s[%d]" % (sect, len(lst) - 1), "task": None}))
     return out
 
 
